@@ -2,7 +2,9 @@
 package runes
 
 const (
-	EOF            = 0
+	EOF = 0
+	// INVALID stands for a NUL byte found in the input, which must not be taken for EOF
+	INVALID        = 1
 	COLON          = ':'
 	BANG           = '!'
 	CARRIAGERETURN = '\r'
